@@ -40,6 +40,10 @@ def seeds_for(shape):
     out.append(("full", full, True))
     out.append(("full_f64", lambda dt: full("float64"), True))
     out.append(("tensor", lambda dt: __import__("mygrad").tensor(full(dt)), True))
+    # seeds of L's exact shape but another dtype, as arrays and as tensors
+    for odt in ("float64", "float32", "float16", "int64"):
+        out.append(("tensor_" + odt, (lambda odt: lambda dt: __import__("mygrad").tensor(np.asarray(np.arange(n).reshape(shape) + 1).astype(odt)))(odt), True))
+        out.append(("array_" + odt, (lambda odt: lambda dt: np.asarray(np.arange(n).reshape(shape) + 1).astype(odt))(odt), True))
     out.append(("list", lambda dt: full("float64").tolist(), True))
     seen = {tuple(shape), ()}
     # every shape that broadcasts *to* `shape` without changing it
@@ -163,11 +167,28 @@ def nnet_cells(acc):
 
     cat = nc.catalogue()
     for name in nc.NAMES:
-        for dt in ("float64", "float32"):
+        for dt in ("float64", "float32", "first32", "rest32"):
             for seedkind in ("absent", "full"):
                 base.reset_mygrad()
-                ins, call = cat[name](dt)
-                out = call(**ins)
+                import mygrad as mg
+
+                if dt in ("first32", "rest32"):
+                    # mixed precision: one operand (or all the others) in float32, the rest in float64
+                    ins, call = cat[name]("float64")
+                    keys = list(ins)
+                    if len(keys) < 2:
+                        continue
+                    for j, k in enumerate(keys):
+                        if (j == 0) == (dt == "first32"):
+                            ins[k] = mg.tensor(ins[k].data.astype("float32"))
+                else:
+                    ins, call = cat[name](dt)
+                try:
+                    out = call(**ins)
+                except Exception as e:
+                    del e
+                    acc.outcome("nnet call rejects this dtype mix")
+                    continue
                 acc.inc("evaluations")
                 acc.inc("nnet_cells")
                 g = None
